@@ -14,9 +14,13 @@ theorem target_kind {L : LogicData} {s : SState} {r : RuleId} {bi : Nat} {st : S
     | .closure => (∃ sn w, st = .close bi sn w) ∨ (∃ n, st = .closeIdent bi n)
     | .table k => (∃ n c wo, st = .rule bi n c wo) ∨
         (∃ rl tick i, st = .quit bi "quit" tick ∧ L.rule? k = some rl ∧ rl.witness ≠ .none ∧ i ∈ s.live (.table k) bi)
-    | .frame fr => L.frameAllowed fr = true ∧ ∃ w1 w2 w3, st = .frame bi fr w1 w2 w3 := by
+    | .frame fr => L.frameAllowed fr = true ∧ ∃ w1 w2 w3, st = .frame bi fr w1 w2 w3
+    | .ident => ∃ i j, st = .ident bi i j := by
   obtain ⟨b, hh, hb, hhs, ho, hmem⟩ := mem_targets hm
   cases r with
+  | ident =>
+    obtain ⟨_, i0, j0, _, _, _, he, _⟩ := ident_targets_shape hmem
+    exact ⟨i0, j0, he⟩
   | closure =>
     simp only at hmem ⊢
     cases hc : hh.closeT with
@@ -143,6 +147,9 @@ theorem apply_fresh {L : LogicData} (hfr : L.frameRules = []) (hrows : L.tfRowsO
   have hk := target_kind hm
   obtain ⟨b, hh, hb, hhs, ho, _⟩ := mem_targets hm
   cases r with
+  | ident =>
+    obtain ⟨i0, j0, he⟩ := hk
+    rw [he]; rfl
   | closure =>
     rcases hk with ⟨sn, w, he⟩ | ⟨n, he⟩ <;> (rw [he]; rfl)
   | frame fr =>
